@@ -81,11 +81,11 @@ def cosetLoop (start : Felt) : Nat → Nat → List LayerQuery → List Felt →
       else
         match sibs with
         | s :: sibs' => cosetLoop start n (i + 1) qs sibs' xInv (s :: acc)
-        | [] => .panic "layer.rs:compute_coset_elements:drain"
+        | [] => .err "SiblingWitnessTooShort"
     | [] =>
       match sibs with
       | s :: sibs' => cosetLoop start n (i + 1) qs sibs' xInv (s :: acc)
-      | [] => .panic "layer.rs:compute_coset_elements:drain"
+      | [] => .err "SiblingWitnessTooShort"
 
 /-- `compute_coset_elements` -/
 def cosetElements (queries : List LayerQuery) (sibs : List Felt) (cosetSize start : Felt) :
@@ -269,7 +269,7 @@ def verifyLayers (H : Hashes) : Nat → List Table.Commitment → List LayerWitn
   | 0, _, _, _, _, qs => .ok qs
   | n + 1, cs, ws, es, steps, qs =>
     match ws with
-    | [] => .panic "fri.rs:fri_verify_layers:unwrap_witness"
+    | [] => .err "LayerWitnessMissing"
     | w :: ws' =>
       match cs with
       | [] => .panic "fri.rs:fri_verify_layers:unwrap_commitment"
@@ -287,7 +287,7 @@ def verifyLayers (H : Hashes) : Nat → List Table.Commitment → List LayerWitn
               | .ok () => verifyLayers H n cs' ws' es' steps' nl.nextQueries
               | .err x => .err x
               | .panic s => .panic s
-            | .err _ => .panic "fri.rs:fri_verify_layers:unwrap_next_layer"
+            | .err _ => .err "LayerComputationError"
             | .panic s => .panic s
 
 /-- `fri_verify` -/
